@@ -40,6 +40,17 @@ def models(tier):
         alpha += [("m", 0, n) for n in ("cea_ok", "cea_3xxx", "cea_nohost", "dpr", "dwa")] + [("eof", 0), ("rst", 0), ("resolve", 0, True), ("resolve", 0, False)]
         alpha += [("m", 1, n) for n in ("cer_p0", "cer_p1", "cea_ok", "dpr")] + [("eof", 1), ("resolve", 1, True)]
         out.append(monitors.ScenarioModel(f"outbound-persistent-start-{plan}", ob, alpha, MONS, max_socks=3, start_plan=[plan]))
+    # second lifetime of a peer whose first connection is winding down after its DPR, while unrelated connections come and go
+    alpha = [("accept",), ("eof", 0), ("tick", 1)]
+    for c in (1, 2):
+        alpha += [("m", c, "cer_p0"), ("m", c, "cer_p1"), ("m", c, "cer_unknown"), ("eof", c)]
+    out.append(monitors.ScenarioModel("second-lifetime-after-DPR", BASE, alpha, MONS, max_socks=3,
+                                      prelude=[("accept",), ("m", 0, "cer_p0"), ("m", 0, "dpr")]))
+    # many wake-up requests at once: one connection has 180 answers to write in the instant in which another one must be closed
+    alpha = [("xn", 0, "dwr", 180, 1, "badlen"), ("xn", 1, "dwr", 180, 0, "badlen"), ("xn", 0, "dwr", 180, 1, "dpr"), ("eof", 0), ("eof", 1), ("tick", 1),
+             ("m", 0, "dwr"), ("m", 1, "dwr")]
+    out.append(monitors.ScenarioModel("many-wake-ups-at-once", BASE, alpha, MONS, max_socks=2,
+                                      prelude=[("accept",), ("m", 0, "cer_p0"), ("accept",), ("m", 1, "cer_p1")]))
     # a second deterministic scheduling policy (the I/O thread runs only when nothing else can)
     if True:
         out = monitors.with_io_last(out)
@@ -151,7 +162,11 @@ def run(tier):
                     "preemption_bound": bound, "bound_completed_without_cap": r.get("bound_completed", bound), "capped": r.get("capped", False), "executions": r["executions"], "distinct_outcomes": len(r["outcomes"]), "branching_points": r["max_points"]})
     rep.cov["schedules"] = sched
     depth = 7 if tier == "thorough" else 5
-    tot = monitors.run_models(rep, models(tier), depth, dedup_depth_plain=depth - 2, time_cap=1500 if tier == "thorough" else 110)
+    ms = models(tier)
+    tot = monitors.run_models(rep, [m for m in ms if not m.name.startswith("many-wake-ups")], depth, dedup_depth_plain=depth - 2, time_cap=1500 if tier == "thorough" else 110)
+    t2 = monitors.run_models(rep, [m for m in ms if m.name.startswith("many-wake-ups")], 4 if tier == "thorough" else 3, time_cap=300 if tier == "thorough" else 40)
+    for k in tot:
+        tot[k] = max(tot[k], t2[k]) if k == "max_depth" else tot[k] + t2[k]
     rep.cov.update({"states": tot["states"], "transitions": tot["transitions"], "traces_validated_against_impl": tot["transitions"] + tot["plain_transitions"],
                     "max_depth": tot["max_depth"], "states_without_dedup": tot["plain_states"],
                     "explanation": "BFS over histories of accepts, dial outcomes, CER/CEA outcomes (incl. a second connection of a connected peer), DPR, "
